@@ -38,7 +38,10 @@ fn parse_flat(s: &str) -> Vec<(String, String)> {
 
 fn main() {
 	let entry = std::env::var("RSX_ENTRY").expect("RSX_ENTRY");
-	let inputs = std::env::var("RSX_INPUTS").unwrap_or_else(|_| "{}".into());
+	let inputs = match std::env::var("RSX_INPUTS_FILE") {
+		Ok(f) => std::fs::read_to_string(f).expect("inputs file"),
+		Err(_) => std::env::var("RSX_INPUTS").unwrap_or_else(|_| "{}".into()),
+	};
 	let params = std::env::var("RSX_PARAMS").unwrap_or_else(|_| "{}".into());
 	rsx::ST.with(|s| {
 		let mut s = s.borrow_mut();
